@@ -12,7 +12,7 @@ It is run under `strace -f`:
     executed on the error path must again be in the protocol class.
 Uses the Run object of bin/check: self.violation, self.cov, self.notes.
 """
-import os, re, shutil, subprocess
+import json, os, re, shutil, subprocess
 import vp
 
 CALLS = ["openat", "read", "write", "fchmod", "fsync", "close", "renameat", "rename", "renameat2", "unlinkat", "unlink",
@@ -114,7 +114,7 @@ def to_op(c):
         flags = a.split(",")[2] if len(a.split(",")) > 2 else ""
         if "O_DIRECTORY" in flags:
             return None
-        return "TL [TS \"open\"; TZ %d; %s; TZ %d; TZ %d]" % (r, ts(s[0]), int("O_CREAT" in flags), int("O_TRUNC" in flags))
+        return "TL [TS \"open\"; TZ %d; %s; TZ %d; TZ %d]" % (r, ts(s[0]), int("O_CREAT" in flags), int("O_TRUNC" in flags or "O_EXCL" in flags))
     if n in ("write", "pwrite64"):
         return "TL [TS \"write\"; TZ %s; %s]" % (fd0.group(1), ts(s[0][:r] if s else b""))
     if n in ("fchmod", "fsync", "fdatasync"):
@@ -226,6 +226,16 @@ def run(self):
                 continue
             stats["kill_points"] += 1
             kills.append((done, read(fname)))
+            # second step of the crash history: a NEW process edits the settings (first making the file
+            # shorter) on top of whatever the killed save left behind in the directory
+            try:
+                pa = subprocess.run([hb, "c19-edits", fname, "after"], env=env, stdout=subprocess.PIPE, stderr=subprocess.PIPE, timeout=60)
+                case2 = json.loads(pa.stdout.decode("utf-8", "replace").strip().split("\n")[-1])
+                cases.append({"in": case2["in"], "obs": case2["obs"], "gen": "fs-kill-then-edit",
+                              "what": "save %s -> %s configs killed at %s (call %d of %d), then delete / menu / save / delete in a new process" % (oldn, newn, c["name"], j, len(win))})
+                stats["kill_then_edit"] = stats.get("kill_then_edit", 0) + 1
+            except Exception as e:
+                self.violation(dict(kind="c19fs-after-child-failed", error=str(e)), False)
         inp = "TL [TS \"fs\"; %s; %s; TL [%s]; %s; TZ 0; TL [%s]]" % (
             ts(fname.encode()), opt(old), "; ".join(opterms), opt(new), "; ".join("TZ %d" % k for k, _ in kills))
         obs = "TL [%s; TL [%s]]" % (optref(final, old, new), "; ".join("TL [TZ %d; %s]" % (k, optref(b, old, new)) for k, b in kills))
@@ -328,7 +338,7 @@ def run(self):
             info["kind"] = "spec-violated"
             info["what"] = ("settings file is neither the complete old nor the complete new contents after an interrupted/failed save, "
                             "or the system calls issued by writeSettings are outside the protocol class of theorem crash_atomic"
-                            if c["gen"] != "fs-edits" else
+                            if c["gen"] not in ("fs-edits", "fs-kill-then-edit") else
                             "after an edit whose write failed, later requests of the same process do not see / produce what the settings file held")
             self.violation(info, True)
         else:
